@@ -54,6 +54,7 @@ LET: dict = {
     'Sh23b': {'k': 'reshape', 'shape': [3, 2], 's': [2, 3]},  # equal to Sh23 but a distinct object
     'R23': {'k': 'ravel', 's': [2, 3]},
     'R6': {'k': 'ravel', 's': [6]},  # no-op ravel
+    'R32': {'k': 'ravel', 's': [3, 2]},  # another ravel sharing the flat side with R23
     'Sh23': {'k': 'reshape', 'shape': [3, 2], 's': [2, 3]},
     'Sh32': {'k': 'reshape', 'shape': [2, 3], 's': [3, 2]},
     'A66': {'k': 'dense', 'm': [[1, 0, 0, 0, 0, 2], [0, 1, 0, 0, 0, 0], [0, 0, 1, 0, 1, 0], [0, 0, 0, 1, 0, 0], [0, 3, 0, 0, 1, 0], [0, 0, 0, 0, 0, 1]]},
@@ -83,6 +84,7 @@ LET: dict = {
     'X43sT': {'k': 'expr', 'e': {'T': 'X43s'}},
     'X3nuT': {'k': 'expr', 'e': {'T': 'X3nu'}},
     'Sh23bT': {'k': 'expr', 'e': {'T': 'Sh23b'}},
+    'Sh32T': {'k': 'expr', 'e': {'T': 'Sh32'}},
     'X23eT': {'k': 'expr', 'e': {'T': 'X23e'}},
     'P3T': {'k': 'expr', 'e': {'T': 'P3'}},
     'R23T': {'k': 'expr', 'e': {'T': 'R23'}},
@@ -115,6 +117,8 @@ LET: dict = {
     'BDq': {'k': 'bdiagop', 'blocks': ['Q1', 'Q2']},
     'BDqT': {'k': 'bdiagop', 'blocks': ['Q1T', 'Q2T']},
     'BDwq': {'k': 'bdiagop', 'blocks': ['W', 'W']},
+    'BDrv': {'k': 'bdiagop', 'blocks': ['R23', 'R23']},  # blocks without array fields that are not identities
+    'BDpl': {'k': 'bdiagop', 'blocks': {'dict': {'f090': 'W', 'f150': 'Pl'}}},
     'BRq': {'k': 'row', 'blocks': ['Pl', 'Pl']},
     # blocks that become identities only through their own reduce() (rule-cancelled products, no-op index / ravel)
     'BDm': {'k': 'bdiagop', 'blocks': ['M23', 'M23']},
@@ -271,5 +275,8 @@ PATTERNS = {
     'near-moveaxis-other-tuple': ['M32', 'M23b'],
     'near-reshape-distinct-object': ['Sh23', 'Sh23bT'],
     'near-reshapeT-distinct-object': ['Sh23bT', 'Sh23'],
+    'near-reshapeT-different-operator': ['R23T', 'R32'],
+    'near-reshape-different-operator': ['Sh23', 'R23T'],
+    'near-ravel-different-operator': ['R32', 'Sh32T'],
     'near-inverse-distinct-object': ['S22I', 'S22b'],
 }
